@@ -76,6 +76,19 @@ func histories(ids []string, n int, f func([]step)) {
 	rec(nil, 0)
 }
 
+// interference: targeted two-task histories (beyond the exhaustive length in the quick tier)
+var interference = [][]step{
+	// the first four also run in the quick tier
+	{{"start", "t1"}, {"start", "t2"}, {"stop", "t1"}, {"Ws", ""}},
+	{{"start", "t1"}, {"start", "t2"}, {"Wn", ""}, {"delete", "t2"}, {"Ws", ""}},
+	{{"start", "t1"}, {"start", "t2"}, {"stop", "t2"}, {"start", "t2"}, {"Ws", ""}},
+	{{"start", "t1"}, {"startfail", "t2"}, {"Ws", ""}, {"start", "t2"}, {"Ws", ""}},
+	{{"start", "t1"}, {"start", "t2"}, {"delete", "t2"}, {"Ws", ""}},
+	{{"start", "t1"}, {"start", "t2"}, {"Wn", ""}, {"stop", "t1"}, {"Ws", ""}},
+	{{"start", "t2"}, {"start", "t1"}, {"delete", "t1"}, {"Wn", ""}, {"start", "t1"}, {"Ws", ""}},
+	{{"startfail", "t1"}, {"start", "t2"}, {"Wn", ""}, {"startfail", "t1"}, {"Ws", ""}},
+}
+
 func runHistory(w *World, t *rt.Trace, tasks map[string]Shape, h []step, mode string) {
 	tr := w.Begin(t, tasks, mode)
 	for _, s := range h {
@@ -102,65 +115,122 @@ func histKey(tasks map[string]Shape, h []step) string {
 	return b.String()
 }
 
+// Lab owns the current World and replaces it when a lifecycle call got stuck.
+type Lab struct {
+	w     *World
+	hangs []string
+}
+
+func (l *Lab) world() *World {
+	if l.w == nil || l.w.dead.Load() {
+		w, err := NewWorld()
+		if err != nil {
+			rt.Fatalf("new world: %v", err)
+		}
+		l.w = w
+	}
+	return l.w
+}
+
+// run executes one trace; it reports false when the trace was cut short by a
+// stuck lifecycle call (the stuck TaskMaster is abandoned, never a verdict).
+// After maxHangs stuck calls nothing more is run; the check then reports the
+// violations recorded so far, or "broken" if there are none.
+func (l *Lab) run(what string, f func(w *World)) (ok bool) {
+	defer func() {
+		if x := recover(); x != nil {
+			h, isHang := x.(hang)
+			if !isHang {
+				panic(x)
+			}
+			l.hangs = append(l.hangs, h.what+" did not return within "+callDeadline.String()+" in "+what)
+			ok = false
+		}
+	}()
+	if len(l.hangs) >= maxHangs {
+		return false // too many stuck calls: stop exploring, report what was recorded so far
+	}
+	f(l.world())
+	return true
+}
+
 // Run: B1 systematic enumeration + seeded random histories (+ concurrent
 // writer/lifecycle histories) on the real TaskMaster.
 func Run(r *rt.Run) error {
-	w, err := NewWorld()
-	if err != nil {
-		return err
-	}
-	defer w.Close()
-	t := r.NewTrace("seq")
+	lab := &Lab{}
+	defer func() {
+		if lab.w != nil && !lab.w.dead.Load() {
+			lab.w.Close()
+		}
+	}()
+	t := r.NewTrace("seq")  // exhaustive singles and pairs
+	tx := r.NewTrace("mix") // targeted two-task histories, triples, random histories
 	tc := r.NewTrace("conc")
 
-	singleLen, pairLen, nPairs, nTriples, tripleLen := 4, 3, 0, 6, 3
-	nRandom, nConc := 300, 150
+	singleLen, pairLen, nTriples, tripleLen, nInterf := 4, 3, 4, 3, 4
+	nRandom, nConc := 250, 150
 	if r.Thorough() {
-		singleLen, pairLen, nTriples, tripleLen = 6, 4, 40, 4
-		nRandom, nConc = 3000, 1500
+		singleLen, pairLen, nTriples, tripleLen, nInterf = 6, 4, 12, 4, len(interference)
+		nRandom, nConc = 2000, 1000
 	}
-	_ = nPairs
 	count := 0
-	// singles: every shape, every history
-	for _, s := range catalogue {
-		tasks := map[string]Shape{"t1": s}
-		histories([]string{"t1"}, singleLen, func(h []step) {
-			runHistory(w, t, tasks, h, "seq")
-			t.Distinct(histKey(tasks, h))
+	// every history for one task set; a stuck call skips the rest of the set
+	explore := func(t *rt.Trace, tasks map[string]Shape, n int) {
+		skip := false
+		histories(rt.SortedKeys(tasks), n, func(h []step) {
+			if skip {
+				return
+			}
+			key := histKey(tasks, h)
+			if !lab.run(key, func(w *World) { runHistory(w, t, tasks, h, "seq") }) {
+				skip = true
+				return
+			}
+			t.Distinct(key)
 			count++
 		})
+	}
+	// singles: every shape, every history
+	for _, s := range catalogue {
+		explore(t, map[string]Shape{"t1": s}, singleLen)
 	}
 	// pairs: every unordered pair of shapes (including twice the same)
 	for i := range catalogue {
 		for j := i; j < len(catalogue); j++ {
+			explore(t, map[string]Shape{"t1": catalogue[i], "t2": catalogue[j]}, pairLen)
+		}
+	}
+	// pairs, one step deeper on the patterns the property names: with both tasks running, stop or
+	// delete one (or restart it, or fail to start it) and write: the other must get everything
+	for i := range catalogue {
+		for j := range catalogue {
 			tasks := map[string]Shape{"t1": catalogue[i], "t2": catalogue[j]}
-			histories([]string{"t1", "t2"}, pairLen, func(h []step) {
-				runHistory(w, t, tasks, h, "seq")
-				t.Distinct(histKey(tasks, h))
+			skip := false
+			for _, h := range interference[:nInterf] {
+				key := histKey(tasks, h)
+				if skip || !lab.run(key, func(w *World) { runHistory(w, tx, tasks, h, "seq") }) {
+					skip = true
+					continue
+				}
+				tx.Distinct(key)
 				count++
-			})
+			}
 		}
 	}
 	// triples: seeded sample of shape triples, every history
 	for n := 0; n < nTriples; n++ {
-		tasks := map[string]Shape{
+		explore(tx, map[string]Shape{
 			"t1": catalogue[r.Rand.Intn(len(catalogue))],
 			"t2": catalogue[r.Rand.Intn(len(catalogue))],
 			"t3": catalogue[r.Rand.Intn(len(catalogue))],
-		}
-		histories([]string{"t1", "t2", "t3"}, tripleLen, func(h []step) {
-			runHistory(w, t, tasks, h, "seq")
-			t.Distinct(histKey(tasks, h))
-			count++
-		})
+		}, tripleLen)
 	}
 	systematic := count
-	// a fresh TaskMaster for the random part (the first one keeps its accumulated fork table)
 	for i := 0; i < nRandom; i++ {
-		runRandom(r, w, t)
+		lab.run("random history", func(w *World) { runRandom(r, w, tx) })
 	}
 	for i := 0; i < nConc; i++ {
-		runConcurrent(r, w, tc)
+		lab.run("concurrent history", func(w *World) { runConcurrent(r, w, tc) })
 	}
 	r.Extra["systematic_histories"] = systematic
 	r.Extra["random_histories"] = nRandom
@@ -170,13 +240,16 @@ func Run(r *rt.Run) error {
 	r.Extra["task_pair_history_len"] = pairLen
 	r.Extra["task_triple_history_len"] = tripleLen
 	r.Extra["task_triples_sampled"] = nTriples
+	r.Extra["targeted_two_task_histories_per_ordered_pair"] = nInterf
+	r.Extra["stuck_lifecycle_calls"] = lab.hangs
 	r.Finish(fmt.Sprintf("real TaskMaster; tasks are TICKscripts with |log().prefix('<task>/<k>') under every from(); "+
 		"every history of exactly the given length over {start,stop,delete} per task (only when applicable) + {burst and wait for fork, burst without waiting} "+
 		"(a burst = 4 WritePoints calls x 4 points over 4 dbrps x 2 measurements x 2 tag values, alternately Go API and HTTP /write) "+
-		"for every one of %d catalogue shapes alone (length %d), every unordered pair (length %d), %d seeded triples (length %d); "+
+		"for every one of %d catalogue shapes alone (length %d), every unordered pair (%d pairs, length %d), %d seeded triples (length %d); "+
+		"targeted two-task histories of length 4-6 for every ordered pair (stop/delete/restart/failed start of one task, then write: the other task must get everything); "+
 		"then seeded random histories (random shapes, 1-3 tasks, single writes, no-op stops) and histories with a concurrent writer goroutine; "+
 		"non-trivial = history with at least one write, distinct by (task set, operation sequence)",
-		len(catalogue), singleLen, len(catalogue)*(len(catalogue)+1)/2, nTriples, tripleLen), false)
+		len(catalogue), singleLen, len(catalogue)*(len(catalogue)+1)/2, pairLen, nTriples, tripleLen), false)
 	return nil
 }
 
@@ -246,6 +319,8 @@ func runRandom(r *rt.Run, w *World, t *rt.Trace) {
 		} else {
 			id := pick(r, ids)
 			switch {
+			case !tr.exec[id] && r.Rand.Intn(6) == 0:
+				op = Op{Kind: "startfail", T: id}
 			case !tr.exec[id] && r.Rand.Intn(8) != 0:
 				op = Op{Kind: "start", T: id}
 			case r.Rand.Intn(2) == 0:
